@@ -366,6 +366,7 @@ pub fn run_files(which: &str, tier: &str, seed: u64, model: &Model, corpus_lines
     let mut run_one = |c: &OFCase, section: &str, rep: &mut Report, exp: &mut Expect, traces: &mut u64, branching: &mut Vec<usize>| {
         counter += 1;
         let uid = format!("{}_{}_{}", which, seed, counter);
+        progress(&c.req());
         rep.evaluations += 1;
         rep.count(&format!("{}/writer:{}", section, c.path.split(':').next().unwrap()), 1);
         rep.count(&format!("{}/sched:{}", section, c.sched.split(':').next().unwrap()), 1);
@@ -485,6 +486,13 @@ pub fn run_files(which: &str, tier: &str, seed: u64, model: &Model, corpus_lines
         let recs = if container.starts_with("fq") { recs.into_iter().map(|r| if r.is_empty() { b"N".to_vec() } else { r }).collect() } else { recs };
         let c = OFCase { recs, k, norm, header: rng.chance(1, 2), delim: rng.pick(&delims).clone(), threads, path, container, sched };
         run_one(&c, "random", &mut rep, &mut exp, &mut traces, &mut branching);
+    }
+    // (2b) many records in one batch / one mapping with several threads
+    for path in ["mmap".to_string(), format!("batch:{}", 4usize << 30)] {
+        let n = rng.range(2200, 3000) as usize;
+        let recs: Vec<Vec<u8>> = (0..n).map(|i| gen::clean_seq(&mut rng, 2 + (i % 11), gen::Flavor::Uniform)).collect();
+        let c = OFCase { recs, k: 2, norm: true, header: false, delim: b" ".to_vec(), threads: 8, path, container: "fa".into(), sched: "free".into() };
+        run_one(&c, "many-records", &mut rep, &mut exp, &mut traces, &mut branching);
     }
     // (3) the same records through every container and both writers must give identical bytes (checked against the one expectation above)
     rep.traces_validated = traces;
